@@ -1,31 +1,29 @@
 /-
-C18 — "Partition pruning never changes query results".
+C18 — "Partition pruning never changes query results"   (model re-synced to /repo b2903b5).
 
-FULL STATEMENT (false of the current source — kept here, with one machine-checked counterexample per class):
+FULL STATEMENT (still false of the source in three classes — kept here, each with a machine-checked witness):
 
   theorem C18_full (now : Int) (σ : Valuation) (p : Pred) (ds : Dataset) (hwp : WellPlaced ds) :
       runPruned now σ p ds = runFull now σ p ds
-  -- and its multi-table / cached forms
-  --   runJoinPruned now σ p a b = runJoinFull now σ p a b
-  --   runUnionPruned now σ p q ds = runUnionFull now σ p q ds
-  --   runCached now σ p ds0 ds = runFull now σ p ds          (ds0 = data set when the plan was cached)
+  -- cached form:  runCached now σ p ds0 ds = runFull now σ p ds   (ds0 = data set when the plan was cached)
 
-What IS proved, for all integer times, all data sets, all valuations of the non-time conditions:
-  * C18_paths_cover / C18_paths_cover_trunc / C18_paths_sound — the generated hour and day paths are exactly the
-    hours `h` with `max(trunc start, minPartitionDate) ≤ h·1h < end` and their days (whenever the cap did not fire);
-  * C18_partial — pruning is exact when the WHERE clause is a conjunction of atoms each of which is either invisible
-    to the regexes or a comparison / BETWEEN on the column written `time` whose right-hand side the pruner reads
-    exactly as DuckDB does, with `<=`/BETWEEN upper bounds not on an hour boundary, and the data lies inside the
-    bounds the pruner assumes (≥ minPartitionDate; ≥ 2020-01-01 when no start bound is found; < now+24 h when
-    no end bound is found);
-  * C18_cached_partial — the same statement issued again stays exact if the post-compaction hook ran (regenerated
-    facts: InvalidateCaches clears the transform cache and the pruner caches) or no NEW partition appeared;
-  * one `…_witness` per excluded class (OR, NOT, `<=` on the hour, BETWEEN upper bound on the hour, end-only with
-    data before the default start, start-only with data after now+24 h, column whose name merely ends in `time`,
-    subquery, join, UNION, plan cached across a new partition, NOW() − INTERVAL 'n months' at month ends,
-    data before minPartitionDate);
-  * C18_*_tied — the regenerated regex literals / constants / loop shape / call-site facts are the ones the model
-    was written for.
+Proved, for all integer times, all data sets, all valuations of the non-time conditions:
+  * C18_paths_cover / _cover_trunc / _sound — the generated hour and day paths are exactly the hours `h` with
+    `max(trunc start, minPartitionDate) ≤ h·1h < end` (`≤ end` when EndInclusive) and their days (cap not firing);
+  * C18_partial — for EVERY WHERE clause (AND / OR / NOT / subqueries, any columns, any operators, any literal format,
+    NOW() ± INTERVAL in any unit) the pruned query returns exactly the rows of the unpruned query, provided the data
+    lies inside the bounds the pruner still assumes: no row before minPartitionDate (1970) and, when the WHERE clause
+    has no upper time bound, no row at or after now + 24 h;
+  * C18_join_exact / C18_union_exact — multi-table statements are never pruned;
+  * C18_cached_partial — the same statement issued again inside the cache TTL stays exact if the post-compaction hook
+    ran (regenerated facts) or no NEW partition appeared;
+  * witnesses for the three classes that remain: data before minPartitionDate, start-only predicate with data after
+    now + 24 h, plan cached across a partition created by a flush;
+  * history: the counterexamples of the nine repaired classes (OR, NOT, `<=`/BETWEEN bound on the hour, end-only with
+    data before 2020, column name ending in `time`, subquery, JOIN, UNION, NOW() − INTERVAL 'n months' at month ends)
+    are kept as `example`s stating that the repaired model now returns the full result on exactly those inputs;
+  * C18_*_tied — the regenerated regex literals / constants / loop shape / unit table / call-site facts are the ones
+    the model was written for.
 -/
 import Arc.Model.C18
 import Arc.Proofs.C18.Basic
@@ -37,49 +35,60 @@ open Arc.Generated.C18
 theorem C18_constants_tied :
     HOUR = hourNs ∧ DAY = 24 * HOUR ∧ minPartitionDateNs % HOUR = 0 ∧ minPartitionDateNs ≤ defaultStartNs ∧
     0 < startOnlyAddNs ∧ 0 < maxPartitionPaths ∧
-    partitionCacheTTLNs ≤ transformCacheTTLNs ∧ globCacheTTLNs ≤ transformCacheTTLNs := by decide
+    partitionCacheTTLNs ≤ transformCacheTTLNs ∧ globCacheTTLNs ≤ transformCacheTTLNs ∧
+    defaultStartNs = minPartitionDateNs ∧ defaultStartIsFloor = true := by decide
 
 /-- The model's reading of the regexes (header of Model/C18.lean) was written for exactly these literals. -/
 theorem C18_regex_tied :
-    startTimePatterns = ["(?i)time\\s*>=\\s*'([^']+)'", "(?i)time\\s*>\\s*'([^']+)'",
-                         "(?i)timestamp\\s*>=\\s*'([^']+)'", "(?i)timestamp\\s*>\\s*'([^']+)'"] ∧
-    endTimePatterns = ["(?i)time\\s*<\\s*'([^']+)'", "(?i)time\\s*<=\\s*'([^']+)'",
-                       "(?i)timestamp\\s*<\\s*'([^']+)'", "(?i)timestamp\\s*<=\\s*'([^']+)'"] ∧
-    betweenPattern = "(?i)time\\s+BETWEEN\\s+'([^']+)'\\s+AND\\s+'([^']+)'" ∧
+    startTimePatterns = ["(?i)\\btime\\s*>=\\s*'([^']+)'", "(?i)\\btime\\s*>\\s*'([^']+)'",
+                         "(?i)\\btimestamp\\s*>=\\s*'([^']+)'", "(?i)\\btimestamp\\s*>\\s*'([^']+)'"] ∧
+    endTimePatterns = ["(?i)\\btime\\s*<\\s*'([^']+)'", "(?i)\\btime\\s*<=\\s*'([^']+)'",
+                       "(?i)\\btimestamp\\s*<\\s*'([^']+)'", "(?i)\\btimestamp\\s*<=\\s*'([^']+)'"] ∧
+    betweenPattern = "(?i)\\btime\\s+BETWEEN\\s+'([^']+)'\\s+AND\\s+'([^']+)'" ∧
     relativePatterns =
-      ["(?i)time\\s*>=?\\s*(?:NOW\\s*\\(\\s*\\)|CURRENT_TIMESTAMP)\\s*-\\s*INTERVAL\\s*'(\\d+)\\s*(second|seconds|minute|minutes|hour|hours|day|days|week|weeks|month|months)'",
-       "(?i)time\\s*>=?\\s*(?:NOW\\s*\\(\\s*\\)|CURRENT_TIMESTAMP)\\s*\\+\\s*INTERVAL\\s*'(\\d+)\\s*(second|seconds|minute|minutes|hour|hours|day|days|week|weeks|month|months)'",
-       "(?i)time\\s*<=?\\s*(?:NOW\\s*\\(\\s*\\)|CURRENT_TIMESTAMP)\\s*-\\s*INTERVAL\\s*'(\\d+)\\s*(second|seconds|minute|minutes|hour|hours|day|days|week|weeks|month|months)'",
-       "(?i)time\\s*<=?\\s*(?:NOW\\s*\\(\\s*\\)|CURRENT_TIMESTAMP)\\s*\\+\\s*INTERVAL\\s*'(\\d+)\\s*(second|seconds|minute|minutes|hour|hours|day|days|week|weeks|month|months)'"] ∧
+      ["(?i)\\btime\\s*>=?\\s*(?:NOW\\s*\\(\\s*\\)|CURRENT_TIMESTAMP)\\s*-\\s*INTERVAL\\s*'(\\d+)\\s*(second|seconds|minute|minutes|hour|hours|day|days|week|weeks|month|months)'",
+       "(?i)\\btime\\s*>=?\\s*(?:NOW\\s*\\(\\s*\\)|CURRENT_TIMESTAMP)\\s*\\+\\s*INTERVAL\\s*'(\\d+)\\s*(second|seconds|minute|minutes|hour|hours|day|days|week|weeks|month|months)'",
+       "(?i)\\btime\\s*<=?\\s*(?:NOW\\s*\\(\\s*\\)|CURRENT_TIMESTAMP)\\s*-\\s*INTERVAL\\s*'(\\d+)\\s*(second|seconds|minute|minutes|hour|hours|day|days|week|weeks|month|months)'",
+       "(?i)\\btime\\s*<=?\\s*(?:NOW\\s*\\(\\s*\\)|CURRENT_TIMESTAMP)\\s*\\+\\s*INTERVAL\\s*'(\\d+)\\s*(second|seconds|minute|minutes|hour|hours|day|days|week|weeks|month|months)'"] ∧
     whereClausePattern = "(?i)\\bWHERE\\b\\s+([\\s\\S]+?)(?:\\bGROUP BY\\b|\\bORDER BY\\b|\\bLIMIT\\b|$)" ∧
-    extractOrder = ["whereClausePattern", "startTimePatterns", "endTimePatterns", "betweenPattern",
+    multiTablePattern = "(?i)\\b(?:JOIN|UNION|INTERSECT|EXCEPT)\\b" ∧ selectPattern = "(?i)\\bSELECT\\b" ∧
+    disjunctionPattern = "(?i)\\b(?:OR|NOT)\\b" ∧
+    extractOrder = ["multiTablePattern", "selectPattern", "whereClausePattern", "disjunctionPattern",
+                    "startTimePatterns", "endTimePatterns", "betweenPattern",
                     "relativeStartSubtractPattern", "relativeStartAddPattern",
                     "relativeEndSubtractPattern", "relativeEndAddPattern"] ∧
     extractBreaks = 2 ∧ extractNilGuards = 4 ∧
     parseLayouts = ["2006-01-02T15:04:05Z07:00", "2006-01-02T15:04:05.999999999Z07:00", "2006-01-02 15:04:05",
                     "2006-01-02 15:04", "2006-01-02", "2006/01/02 15:04:05", "2006/01/02"] ∧
     parseConvertsToUTC = true :=
-  ⟨rfl, rfl, rfl, rfl, rfl, rfl, rfl, rfl, rfl, rfl⟩
+  ⟨rfl, rfl, rfl, rfl, rfl, rfl, rfl, rfl, rfl, rfl, rfl, rfl, rfl⟩
 
+/-- loop shape, EndInclusive rules (`<` literal pattern ⇒ exclusive; `<=`, BETWEEN, relative, none ⇒ inclusive) and
+    the two bail-outs of ExtractTimeRange. -/
 theorem C18_loop_tied :
-    loopInit = "timeRange.Start.Truncate(time.Hour)" ∧ loopCond = "current.Before(end)" ∧
+    loopInit = "timeRange.Start.Truncate(time.Hour)" ∧
+    loopCond = "current.Before(end) || (timeRange.EndInclusive && current.Equal(end))" ∧
     loopStep = "current.Add(time.Hour)" ∧
     clampStmt = "current.Before(minPartitionDate) => current = minPartitionDate" ∧
     hourlyExpr = "int64((span + time.Hour - 1) / time.Hour)" ∧ dailyExpr = "hourlyPaths/24 + 1" ∧
-    dayLevelPaths = true ∧ emptyFallbacks = 2 ∧ partitionCacheConsultedFirst = true := by decide
+    dayLevelPaths = true ∧ emptyFallbacks = 2 ∧ partitionCacheConsultedFirst = true ∧
+    endInclusiveRules = ["endInclusive := false", "endInclusive = i%2 == 1", "endInclusive = true",
+                         "endInclusive = true"] ∧
+    bailsOnMultiTable = true ∧ bailsOnOrNot = true := by decide
 
 /-- unit → arithmetic table of `evaluateRelativeTime` the model's `relGo` was written for: second/minute/hour are
-    fixed Durations, day/week are `AddDate` days (= n·24 h in UTC), month is CALENDAR-month `AddDate(0, n, 0)`
-    (no `year` unit: the regexes do not recognise it). -/
+    fixed Durations, day/week are `AddDate` days (= n·24 h in UTC), month is CALENDAR-month `AddDate(0, n, 0)` pulled
+    back to the target month's last day on overflow, as DuckDB does (no `year` unit: the regexes do not recognise it). -/
 theorem C18_relative_units_tied :
     relativeUnits = ["second => now.Add(time.Duration(n) * time.Second)",
                      "minute => now.Add(time.Duration(n) * time.Minute)",
                      "hour => now.Add(time.Duration(n) * time.Hour)",
                      "day => now.AddDate(0, 0, n)", "week => now.AddDate(0, 0, n*7)",
-                     "month => now.AddDate(0, n, 0)"] := by decide
+                     "month => t := now.AddDate(0, n, 0); if t.Day() != now.Day() { t = t.AddDate(0, 0, -t.Day()) }; return t, nil"] := by
+  decide
 
-/-- query.go prunes every table reference with the text of the whole statement; nothing on the ingest/flush path
-    invalidates the pruner / transform caches (only compaction completion and the cluster cache-invalidate do). -/
+/-- query.go prunes every table reference with the text of the whole statement (harmless now that multi-table
+    statements are not pruned); nothing on the ingest/flush path invalidates the pruner / transform caches. -/
 theorem C18_call_sites_tied :
     prunesWithWholeStatement = true ∧ optimizeSqlArgs.length = 2 ∧ ingestInvalidations = 0 ∧
     compactionCallsInvalidate = true := by decide
@@ -87,24 +96,26 @@ theorem C18_call_sites_tied :
 /-! ## (1) generated paths -/
 
 /-- every instant in `[start, end)` (not before `minPartitionDate`) has its hour partition AND its day partition
-    among the generated paths — for all integer times. -/
-theorem C18_paths_cover (s e t : Int) (ps : Paths) (h : generatePaths s e = some ps)
+    among the generated paths — for all integer times, whatever EndInclusive is. -/
+theorem C18_paths_cover (s e t : Int) (incl : Bool) (ps : Paths) (h : generatePaths s e incl = some ps)
     (hs : s ≤ t) (he : t < e) (hm : minPartitionDateNs ≤ t) :
     hourOf t ∈ ps.hours ∧ dayOf t ∈ ps.days := by
-  apply paths_cover_trunc C18_constants_tied.2.2.1 s e t ps h hs _ hm
-  simp only [HOUR] at *
-  omega
+  apply paths_cover_trunc C18_constants_tied.2.2.1 s e t incl ps h hs _ hm
+  cases incl <;> simp only [loopEnd, HOUR, ↓reduceIte, Bool.false_eq_true] at * <;> omega
 
-/-- sharper: it is enough that the HOUR of `t` starts before `end` (this is what makes `time <= b` sound
-    exactly when `b` is not on an hour boundary). -/
-theorem C18_paths_cover_trunc (s e t : Int) (ps : Paths) (h : generatePaths s e = some ps)
-    (hs : s ≤ t) (he : truncHour t < e) (hm : minPartitionDateNs ≤ t) :
-    hourOf t ∈ ps.hours ∧ dayOf t ∈ ps.days :=
-  paths_cover_trunc C18_constants_tied.2.2.1 s e t ps h hs he hm
+/-- sharper: it is enough that the HOUR of `t` starts before `end` — or AT `end` when the bound is inclusive
+    (`time <= b`, BETWEEN): the row exactly at `b` lives in the hour that starts at `b`. -/
+theorem C18_paths_cover_trunc (s e t : Int) (incl : Bool) (ps : Paths) (h : generatePaths s e incl = some ps)
+    (hs : s ≤ t) (he : truncHour t < e ∨ (incl = true ∧ truncHour t ≤ e)) (hm : minPartitionDateNs ≤ t) :
+    hourOf t ∈ ps.hours ∧ dayOf t ∈ ps.days := by
+  apply paths_cover_trunc C18_constants_tied.2.2.1 s e t incl ps h hs _ hm
+  rcases he with he | ⟨hi, he⟩
+  · cases incl <;> simp only [loopEnd, truncHour, HOUR, ↓reduceIte, Bool.false_eq_true] at * <;> omega
+  · subst hi; simp only [loopEnd, truncHour, HOUR, ↓reduceIte] at *; omega
 
 /-- nothing else is generated: pruning really prunes. -/
-theorem C18_paths_sound (s e h : Int) (ps : Paths) (hg : generatePaths s e = some ps) (hm : h ∈ ps.hours) :
-    startOf s ≤ h * HOUR ∧ h * HOUR < e := by
+theorem C18_paths_sound (s e h : Int) (incl : Bool) (ps : Paths) (hg : generatePaths s e incl = some ps)
+    (hm : h ∈ ps.hours) : startOf s ≤ h * HOUR ∧ h * HOUR < loopEnd e incl := by
   unfold generatePaths at hg
   simp only [] at hg
   split at hg
@@ -115,51 +126,44 @@ theorem C18_paths_sound (s e h : Int) (ps : Paths) (hg : generatePaths s e = som
 
 example : generatePaths 1710498600000000000 1710505800000000000 =
     some { hours := [475138, 475139, 475140], days := [19797] } := by decide
+/-- the inclusive bound adds exactly the hour that starts at `end` -/
+example : generatePaths 1710496800000000000 1710500400000000000 true =
+    some { hours := [475138, 475139], days := [19797] } ∧
+    generatePaths 1710496800000000000 1710500400000000000 false =
+    some { hours := [475138], days := [19797] } := by decide
 
-/-! ## (2) the class on which pruning is exact -/
+/-! ## (2) pruning is exact for every WHERE clause, data inside the assumed bounds -/
 
-/-- the pruner reads the right-hand side exactly as the engine does (or not at all). -/
-def Rhs.exact (now : Int) (r : Rhs) : Bool :=
-  match r.go now with
-  | none => true
-  | some g => decide (g = r.db now)
-
-/-- column spellings in which no regex fragment matches. -/
-def Col.quiet : Col → Bool
-  | .timeQuoted => true
-  | .plain => true
-  | _ => false
-
-def Rhs.isNum : Rhs → Bool
-  | .num _ => true
-  | _ => false
-
-/-- atoms that are invisible to the regexes, or visible and read soundly. -/
-def BAtom.safe (now : Int) : BAtom → Bool
-  | .cmp c op r =>
-    r.dbOk && (r.isNum || c.quiet ||
-      (decide (c = .time) && r.exact now && (decide (op ≠ .le) || decide (r.db now % HOUR ≠ 0))))
-  | .between c lo hi =>
-    lo.dbOk && hi.dbOk && (c.quiet ||
-      (decide (c = .time) && lo.exact now && hi.exact now && decide (hi.db now % HOUR ≠ 0)))
-  | .opaque _ => true
-
-/-- WHERE = conjunction of safe atoms (no OR, no NOT, no subquery). -/
-def Pred.safeConj (now : Int) : Pred → Bool
-  | .atom (.base b) => b.safe now
-  | .and p q => p.safeConj now && q.safeConj now
-  | _ => false
-
-/-- the data lies inside the bounds the pruner assumes. -/
-def dataOK (now : Int) (txt : List BAtom) (ds : Dataset) : Bool :=
+/-- the data lies inside the bounds the pruner assumes: nothing before minPartitionDate; nothing at/after
+    now + 24 h when the statement is prunable and has no upper time bound. -/
+def dataOK (now : Int) (p : Pred) (ds : Dataset) : Bool :=
   (rowsOf ds).all fun r =>
     decide (minPartitionDateNs ≤ r.time) &&
-    ((endBound now txt).isSome || decide (r.time < now + startOnlyAddNs)) &&
-    ((startBound now txt).isSome || decide (defaultStartNs ≤ r.time))
+    (!p.plainConj || (endBound now p.text).isSome || decide (r.time < now + startOnlyAddNs))
+
+/-- whatever the pruner reads, DuckDB reads the same instant (all literal formats Go accepts; every unit). -/
+theorem go_eq_db {now : Int} {r : Rhs} {s : Int} (h : r.go now = some s) : r.db now = s := by
+  cases r with
+  | lit l =>
+    simp only [Rhs.go] at h
+    simp only [Rhs.db]
+    have : l.db = some s := by
+      unfold Lit.go at h
+      unfold Lit.db
+      split at h <;> simp_all
+    simp [this]
+  | rel p n u cs =>
+    simp only [Rhs.go] at h
+    cases cs with
+    | true => simp at h
+    | false =>
+      simp only [Bool.false_eq_true, if_false, Option.some.injEq] at h
+      subst h
+      cases u <;> rfl
+  | num k => simp [Rhs.go] at h
 
 theorem conj_atoms_true {now : Int} {σ : Valuation} {r : Row} :
-    ∀ {p : Pred}, p.safeConj now = true → p.eval now σ r = true →
-      ∀ b ∈ p.text, b.safe now = true ∧ b.eval now σ r = true := by
+    ∀ {p : Pred}, p.plainConj = true → p.eval now σ r = true → ∀ b ∈ p.text, b.eval now σ r = true := by
   intro p
   induction p with
   | atom a =>
@@ -168,55 +172,49 @@ theorem conj_atoms_true {now : Int} {σ : Valuation} {r : Row} :
     | base b0 =>
       simp only [Pred.text, Atom.text, List.mem_singleton] at hb
       subst hb
-      exact ⟨by simpa [Pred.safeConj] using hs, by simpa [Pred.eval, Atom.eval] using he⟩
-    | sub k inner => simp [Pred.safeConj] at hs
+      simpa [Pred.eval, Atom.eval] using he
+    | sub k inner => simp [Pred.plainConj] at hs
   | and p q ihp ihq =>
     intro hs he b hb
-    simp only [Pred.safeConj, Bool.and_eq_true] at hs
+    simp only [Pred.plainConj, Bool.and_eq_true] at hs
     simp only [Pred.eval, Bool.and_eq_true] at he
     simp only [Pred.text, List.mem_append] at hb
     rcases hb with hb | hb
     · exact ihp hs.1 he.1 b hb
     · exact ihq hs.2 he.2 b hb
-  | or p q _ _ => intro hs; simp [Pred.safeConj] at hs
-  | not p _ => intro hs; simp [Pred.safeConj] at hs
+  | or p q _ _ => intro hs; simp [Pred.plainConj] at hs
+  | not p _ => intro hs; simp [Pred.plainConj] at hs
 
-theorem visible_not_quiet {c : Col} (h : c.endsInTime = true ∨ c.endsInTimestamp = true) : c.quiet = false := by
-  cases c <;> simp_all [Col.endsInTime, Col.endsInTimestamp, Col.quiet]
+/-- a column the patterns see is the partition column. -/
+theorem visible_is_time {c : Col} (h : c.endsInTime = true ∨ c.endsInTimestamp = true) : c = .time := by
+  cases c <;> simp_all [Col.endsInTime, Col.endsInTimestamp]
 
 theorem cmp_sound_start {now : Int} {σ : Valuation} {row : Row} {c : Col} {op : Cmp} {r : Rhs} {s : Int}
-    (hsafe : (BAtom.cmp c op r).safe now = true) (hev : (BAtom.cmp c op r).eval now σ row = true)
-    (hvis : c.endsInTime = true ∨ c.endsInTimestamp = true) (hnum : r.isNum = false)
+    (hev : (BAtom.cmp c op r).eval now σ row = true)
+    (hvis : c.endsInTime = true ∨ c.endsInTimestamp = true)
     (hop : op = .ge ∨ op = .gt) (hgo : r.go now = some s) : s ≤ row.time := by
-  have hq := visible_not_quiet hvis
-  simp only [BAtom.safe, hnum, hq, Bool.false_or, Bool.and_eq_true, decide_eq_true_eq, Rhs.exact, hgo] at hsafe
-  obtain ⟨_, ⟨hc, hex⟩, _⟩ := hsafe
+  have hc := visible_is_time hvis
   subst hc
-  simp only [BAtom.eval, Col.val] at hev
+  have hdb := go_eq_db hgo
+  simp only [BAtom.eval, Col.val, hdb] at hev
   rcases hop with h | h <;> subst h <;> simp only [Cmp.holds, decide_eq_true_eq] at hev <;> omega
 
+/-- `<` gives `t < e`, `<=` gives `t ≤ e`. -/
 theorem cmp_sound_end {now : Int} {σ : Valuation} {row : Row} {c : Col} {op : Cmp} {r : Rhs} {e : Int}
-    (hsafe : (BAtom.cmp c op r).safe now = true) (hev : (BAtom.cmp c op r).eval now σ row = true)
-    (hvis : c.endsInTime = true ∨ c.endsInTimestamp = true) (hnum : r.isNum = false)
-    (hop : op = .lt ∨ op = .le) (hgo : r.go now = some e) : row.time / HOUR * HOUR < e := by
-  have hq := visible_not_quiet hvis
-  simp only [BAtom.safe, hnum, hq, Bool.false_or, Bool.and_eq_true, decide_eq_true_eq, Rhs.exact, hgo] at hsafe
-  obtain ⟨_, ⟨hc, hex⟩, hle⟩ := hsafe
+    (hev : (BAtom.cmp c op r).eval now σ row = true)
+    (hvis : c.endsInTime = true ∨ c.endsInTimestamp = true)
+    (hop : op = .lt ∨ op = .le) (hgo : r.go now = some e) :
+    row.time ≤ e ∧ (op = .lt → row.time < e) := by
+  have hc := visible_is_time hvis
   subst hc
-  simp only [BAtom.eval, Col.val] at hev
-  rcases hop with h | h
-  · subst h
-    simp only [Cmp.holds, decide_eq_true_eq] at hev
-    simp only [HOUR] at *
-    omega
-  · subst h
-    simp only [Cmp.holds, decide_eq_true_eq] at hev
-    simp only [ne_eq, not_true_eq_false, decide_false, Bool.false_or, decide_eq_true_eq] at hle
-    simp only [HOUR] at *
-    omega
+  have hdb := go_eq_db hgo
+  simp only [BAtom.eval, Col.val, hdb] at hev
+  rcases hop with h | h <;> subst h <;> simp only [Cmp.holds, decide_eq_true_eq] at hev
+  · exact ⟨by omega, fun _ => hev⟩
+  · exact ⟨hev, fun h => by cases h⟩
 
 theorem start_sound {now : Int} {σ : Valuation} {row : Row} {txt : List BAtom} {s : Int}
-    (hall : ∀ b ∈ txt, b.safe now = true ∧ b.eval now σ row = true)
+    (hall : ∀ b ∈ txt, b.eval now σ row = true)
     (h : startBound now txt = some s) : s ≤ row.time := by
   unfold startBound at h
   split at h
@@ -224,14 +222,12 @@ theorem start_sound {now : Int} {σ : Valuation} {row : Row} {txt : List BAtom} 
     simp only [Option.some.injEq] at h
     subst h
     obtain ⟨c, l1, l2, hm, hc, h1, _⟩ := betweenPat_some hb
-    obtain ⟨hsafe, hev⟩ := hall _ hm
-    have hq := visible_not_quiet (Or.inl hc)
-    simp only [BAtom.safe, hq, Bool.false_or, Bool.and_eq_true, decide_eq_true_eq, Rhs.exact, Rhs.go, h1] at hsafe
-    obtain ⟨_, ⟨⟨⟨hct, hex⟩, _⟩, _⟩⟩ := hsafe
+    have hev := hall _ hm
+    have hct := visible_is_time (Or.inl hc)
     subst hct
-    simp only [BAtom.eval, Col.val, Bool.and_eq_true] at hev
-    have hev1 := of_decide_eq_true hev.1
-    omega
+    have hdb : (Rhs.lit l1).db now = a := go_eq_db (by simpa [Rhs.go] using h1)
+    simp only [BAtom.eval, Col.val, Bool.and_eq_true, hdb] at hev
+    exact of_decide_eq_true hev.1
   · have hmem := firstSome_some h
     simp only [List.mem_cons, List.mem_nil_iff, or_false] at hmem
     rcases hmem with hmem | hmem | hmem
@@ -240,92 +236,112 @@ theorem start_sound {now : Int} {σ : Valuation} {row : Row} {txt : List BAtom} 
       rcases hmem2 with h1 | h1 | h1 | h1
       all_goals
         obtain ⟨c, l, hm, hc, hgo⟩ := absPat_some h1.symm
-        obtain ⟨hsafe, hev⟩ := hall _ hm
+        have hev := hall _ hm
         first
-          | exact cmp_sound_start hsafe hev (Or.inl hc) rfl (Or.inl rfl) (by simpa [Rhs.go] using hgo)
-          | exact cmp_sound_start hsafe hev (Or.inl hc) rfl (Or.inr rfl) (by simpa [Rhs.go] using hgo)
-          | exact cmp_sound_start hsafe hev (Or.inr hc) rfl (Or.inl rfl) (by simpa [Rhs.go] using hgo)
-          | exact cmp_sound_start hsafe hev (Or.inr hc) rfl (Or.inr rfl) (by simpa [Rhs.go] using hgo)
+          | exact cmp_sound_start hev (Or.inl hc) (Or.inl rfl) (by simpa [Rhs.go] using hgo)
+          | exact cmp_sound_start hev (Or.inl hc) (Or.inr rfl) (by simpa [Rhs.go] using hgo)
+          | exact cmp_sound_start hev (Or.inr hc) (Or.inl rfl) (by simpa [Rhs.go] using hgo)
+          | exact cmp_sound_start hev (Or.inr hc) (Or.inr rfl) (by simpa [Rhs.go] using hgo)
     all_goals
       obtain ⟨c, o, n, u, cs, hm, hc, ho, hgo⟩ := relPat_some hmem.symm
-      obtain ⟨hsafe, hev⟩ := hall _ hm
+      have hev := hall _ hm
       simp only [if_true] at ho
-      exact cmp_sound_start hsafe hev (Or.inl hc) rfl ho hgo
+      exact cmp_sound_start hev (Or.inl hc) ho hgo
 
-theorem end_sound {now : Int} {σ : Valuation} {row : Row} {txt : List BAtom} {e : Int}
-    (hall : ∀ b ∈ txt, b.safe now = true ∧ b.eval now σ row = true)
-    (h : endBound now txt = some e) : row.time / HOUR * HOUR < e := by
-  unfold endBound at h
+/-- an end bound `(e, incl)`: qualifying rows are `≤ e`, and `< e` when the bound is exclusive. -/
+theorem end_sound {now : Int} {σ : Valuation} {row : Row} {txt : List BAtom} {e : Int} {incl : Bool}
+    (hall : ∀ b ∈ txt, b.eval now σ row = true)
+    (h : endBoundP now txt = some (e, incl)) : row.time ≤ e ∧ (incl = false → row.time < e) := by
+  unfold endBoundP at h
   split at h
   · rename_i a b hb
-    simp only [Option.some.injEq] at h
-    subst h
+    simp only [Option.some.injEq, Prod.mk.injEq] at h
+    obtain ⟨h1, h2⟩ := h
+    subst h1; subst h2
     obtain ⟨c, l1, l2, hm, hc, _, h2⟩ := betweenPat_some hb
-    obtain ⟨hsafe, hev⟩ := hall _ hm
-    have hq := visible_not_quiet (Or.inl hc)
-    simp only [BAtom.safe, hq, Bool.false_or, Bool.and_eq_true, decide_eq_true_eq, Rhs.exact, Rhs.go, h2] at hsafe
-    obtain ⟨_, ⟨⟨⟨hct, _⟩, hex⟩, hb⟩⟩ := hsafe
+    have hev := hall _ hm
+    have hct := visible_is_time (Or.inl hc)
     subst hct
-    simp only [BAtom.eval, Col.val, Bool.and_eq_true] at hev
-    have hev2 := of_decide_eq_true hev.2
-    simp only [HOUR] at *
-    omega
-  · have hmem := firstSome_some h
-    simp only [List.mem_cons, List.mem_nil_iff, or_false] at hmem
-    rcases hmem with hmem | hmem | hmem
-    · have hmem2 := firstSome_some (l := [_, _, _, _]) hmem.symm
-      simp only [List.mem_cons, List.mem_nil_iff, or_false] at hmem2
-      rcases hmem2 with h1 | h1 | h1 | h1
+    have hdb : (Rhs.lit l2).db now = b := go_eq_db (by simpa [Rhs.go] using h2)
+    simp only [BAtom.eval, Col.val, Bool.and_eq_true, hdb] at hev
+    exact ⟨of_decide_eq_true hev.2, fun h => by cases h⟩
+  · split at h
+    · rename_i x hx
+      simp only [Option.some.injEq] at h
+      subst h
+      have hmem := firstSomeP_some hx
+      simp only [List.mem_cons, List.mem_nil_iff, or_false, Prod.mk.injEq] at hmem
+      rcases hmem with ⟨h1, h2⟩ | ⟨h1, h2⟩ | ⟨h1, h2⟩ | ⟨h1, h2⟩
       all_goals
         obtain ⟨c, l, hm, hc, hgo⟩ := absPat_some h1.symm
-        obtain ⟨hsafe, hev⟩ := hall _ hm
-        first
-          | exact cmp_sound_end hsafe hev (Or.inl hc) rfl (Or.inl rfl) (by simpa [Rhs.go] using hgo)
-          | exact cmp_sound_end hsafe hev (Or.inl hc) rfl (Or.inr rfl) (by simpa [Rhs.go] using hgo)
-          | exact cmp_sound_end hsafe hev (Or.inr hc) rfl (Or.inl rfl) (by simpa [Rhs.go] using hgo)
-          | exact cmp_sound_end hsafe hev (Or.inr hc) rfl (Or.inr rfl) (by simpa [Rhs.go] using hgo)
-    all_goals
-      obtain ⟨c, o, n, u, cs, hm, hc, ho, hgo⟩ := relPat_some hmem.symm
-      obtain ⟨hsafe, hev⟩ := hall _ hm
-      simp only [Bool.false_eq_true, if_false] at ho
-      exact cmp_sound_end hsafe hev (Or.inl hc) rfl ho hgo
+        have hev := hall _ hm
+        subst h2
+      · have := cmp_sound_end hev (Or.inl hc) (Or.inl rfl) (by simpa [Rhs.go] using hgo)
+        exact ⟨this.1, fun _ => this.2 rfl⟩
+      · have := cmp_sound_end hev (Or.inl hc) (Or.inr rfl) (by simpa [Rhs.go] using hgo)
+        exact ⟨this.1, fun h => by cases h⟩
+      · have := cmp_sound_end hev (Or.inr hc) (Or.inl rfl) (by simpa [Rhs.go] using hgo)
+        exact ⟨this.1, fun _ => this.2 rfl⟩
+      · have := cmp_sound_end hev (Or.inr hc) (Or.inr rfl) (by simpa [Rhs.go] using hgo)
+        exact ⟨this.1, fun h => by cases h⟩
+    · split at h
+      · rename_i e' he'
+        simp only [Option.some.injEq, Prod.mk.injEq] at h
+        obtain ⟨h1, h2⟩ := h
+        subst h1; subst h2
+        have hmem := firstSome_some he'
+        simp only [List.mem_cons, List.mem_nil_iff, or_false] at hmem
+        rcases hmem with hmem | hmem
+        all_goals
+          obtain ⟨c, o, n, u, cs, hm, hc, ho, hgo⟩ := relPat_some hmem.symm
+          have hev := hall _ hm
+          simp only [Bool.false_eq_true, if_false] at ho
+          exact ⟨(cmp_sound_end hev (Or.inl hc) ho hgo).1, fun h => by cases h⟩
+      · cases h
 
 /-- a qualifying row lies inside the extracted range (in the sense the path loop needs). -/
-theorem range_sound {now : Int} {σ : Valuation} {p : Pred} {ds : Dataset} {row : Row} {s e : Int}
-    (hconj : p.safeConj now = true) (hdata : dataOK now p.text ds = true) (hrow : row ∈ rowsOf ds)
-    (hev : p.eval now σ row = true) (hx : extract now p.text = some (s, e)) :
-    s ≤ row.time ∧ row.time / HOUR * HOUR < e ∧ minPartitionDateNs ≤ row.time := by
+theorem range_sound {now : Int} {σ : Valuation} {p : Pred} {ds : Dataset} {row : Row} {s e : Int} {incl : Bool}
+    (hconj : p.plainConj = true) (hdata : dataOK now p ds = true) (hrow : row ∈ rowsOf ds)
+    (hev : p.eval now σ row = true) (hx : extract now p.text = some (s, e, incl)) :
+    s ≤ row.time ∧ row.time / HOUR * HOUR < loopEnd e incl ∧ minPartitionDateNs ≤ row.time := by
   have hall := conj_atoms_true hconj hev
   have hd := (List.all_eq_true.mp hdata) row hrow
-  simp only [Bool.and_eq_true, Bool.or_eq_true, decide_eq_true_eq] at hd
-  obtain ⟨⟨hmin, hend⟩, hstart⟩ := hd
+  simp only [hconj, Bool.not_true, Bool.false_or, Bool.and_eq_true, Bool.or_eq_true, decide_eq_true_eq] at hd
+  obtain ⟨hmin, hend⟩ := hd
   unfold extract at hx
   split at hx
-  · rename_i s' e' hs he
+  · rename_i s' e' i' hs he
     simp only [Option.some.injEq, Prod.mk.injEq] at hx
-    obtain ⟨h1, h2⟩ := hx; subst h1; subst h2
-    exact ⟨start_sound hall hs, end_sound hall he, hmin⟩
+    obtain ⟨h1, h2, h3⟩ := hx; subst h1; subst h2; subst h3
+    have h2 := end_sound hall he
+    refine ⟨start_sound hall hs, ?_, hmin⟩
+    cases i' with
+    | true => simp only [loopEnd, ↓reduceIte, HOUR] at *; omega
+    | false => have := h2.2 rfl; simp only [loopEnd, Bool.false_eq_true, ↓reduceIte, HOUR] at *; omega
   · rename_i s' hs he
     simp only [Option.some.injEq, Prod.mk.injEq] at hx
-    obtain ⟨h1, h2⟩ := hx; subst h1; subst h2
+    obtain ⟨h1, h2, h3⟩ := hx; subst h1; subst h2; subst h3
     refine ⟨start_sound hall hs, ?_, hmin⟩
-    simp only [he, Option.isSome_none, Bool.false_eq_true, false_or] at hend
-    simp only [HOUR] at *
+    simp only [endBound, he, Option.map_none, Option.isSome_none, Bool.false_eq_true, false_or] at hend
+    simp only [loopEnd, ↓reduceIte, HOUR] at *
     omega
-  · rename_i e' hs he
+  · rename_i e' i' hs he
     simp only [Option.some.injEq, Prod.mk.injEq] at hx
-    obtain ⟨h1, h2⟩ := hx; subst h1; subst h2
-    simp only [hs, Option.isSome_none, Bool.false_eq_true, false_or] at hstart
-    exact ⟨hstart, end_sound hall he, hmin⟩
+    obtain ⟨h1, h2, h3⟩ := hx; subst h1; subst h2; subst h3
+    have h2 := end_sound hall he
+    refine ⟨by have := C18_constants_tied.2.2.2.2.2.2.2.2.1; omega, ?_, hmin⟩
+    cases i' with
+    | true => simp only [loopEnd, ↓reduceIte, HOUR] at *; omega
+    | false => have := h2.2 rfl; simp only [loopEnd, Bool.false_eq_true, ↓reduceIte, HOUR] at *; omega
   · cases hx
 
 /-- reading under ANY plan derived from generated paths that cover the qualifying rows returns the full result. -/
-theorem read_exact {now : Int} {σ : Valuation} {p : Pred} {ds0 ds : Dataset} {s e : Int} {ps : Paths}
-    (hwp : WellPlaced ds) (hg : generatePaths s e = some ps)
+theorem read_exact {now : Int} {σ : Valuation} {p : Pred} {ds0 ds : Dataset} {s e : Int} {incl : Bool} {ps : Paths}
+    (hwp : WellPlaced ds) (hg : generatePaths s e incl = some ps)
     (hnew : ∀ f ∈ ds, ∃ f0 ∈ ds0, f0.part = f.part)
     (hin : ∀ row ∈ rowsOf ds, p.eval now σ row = true →
-      s ≤ row.time ∧ row.time / HOUR * HOUR < e ∧ minPartitionDateNs ≤ row.time) :
-    (rowsOf (readWith (planFor (some (s, e)) ds0) ds)).filter (p.eval now σ) =
+      s ≤ row.time ∧ row.time / HOUR * HOUR < loopEnd e incl ∧ minPartitionDateNs ≤ row.time) :
+    (rowsOf (readWith (planFor (some (s, e, incl)) ds0) ds)).filter (p.eval now σ) =
       (rowsOf ds).filter (p.eval now σ) := by
   simp only [planFor, hg]
   split
@@ -338,7 +354,7 @@ theorem read_exact {now : Int} {σ : Valuation} {p : Pred} {ds0 ds : Dataset} {s
     | true =>
       exfalso
       obtain ⟨h1, h2, h3⟩ := hin row (mem_rowsOf.mpr ⟨f, hf, hrow⟩) hP
-      obtain ⟨hh, hd⟩ := paths_cover_trunc C18_constants_tied.2.2.1 s e row.time ps hg h1 h2 h3
+      obtain ⟨hh, hd⟩ := paths_cover_trunc C18_constants_tied.2.2.1 s e row.time incl ps hg h1 h2 h3
       have hpart : f.part ∈ partsOfPaths ps := by
         have := hwp f hf row hrow
         cases hfp : f.part with
@@ -357,21 +373,34 @@ theorem read_exact {now : Int} {σ : Valuation} {p : Pred} {ds0 ds : Dataset} {s
       simp only [decide_eq_false_iff_not] at hkeep
       exact hkeep this
 
-/-- **C18_partial** — on the exact class the pruned query returns exactly the rows of the unpruned query
-    (same rows, same order), for every data set, time and valuation of the non-time conditions. -/
+/-- **C18_partial** — for EVERY WHERE clause the pruned query returns exactly the rows of the unpruned query (same
+    rows, same order), for every data set inside the assumed bounds, every time and every valuation of the
+    non-time conditions. The only carve-out left is on the DATA (`dataOK`): the two known classes. -/
 theorem C18_partial (now : Int) (σ : Valuation) (p : Pred) (ds : Dataset)
-    (hwp : WellPlaced ds) (hconj : p.safeConj now = true) (hdata : dataOK now p.text ds = true) :
+    (hwp : WellPlaced ds) (hdata : dataOK now p ds = true) :
     runPruned now σ p ds = runFull now σ p ds := by
-  unfold runPruned runFull readSet
-  cases hx : extract now p.text with
-  | none => rfl
-  | some se =>
-    obtain ⟨s, e⟩ := se
-    cases hg : generatePaths s e with
-    | none => simp [planFor, hg, readWith]
-    | some ps =>
-      exact read_exact hwp hg (fun f hf => ⟨f, hf, rfl⟩)
-        (fun row hrow hev => range_sound hconj hdata hrow hev hx)
+  unfold runPruned runFull readSet extractStmt
+  cases hconj : p.plainConj with
+  | false => rfl
+  | true =>
+    simp only [if_true]
+    cases hx : extract now p.text with
+    | none => rfl
+    | some sei =>
+      obtain ⟨s, e, incl⟩ := sei
+      cases hg : generatePaths s e incl with
+      | none => simp [planFor, hg, readWith]
+      | some ps =>
+        exact read_exact hwp hg (fun f hf => ⟨f, hf, rfl⟩)
+          (fun row hrow hev => range_sound hconj hdata hrow hev hx)
+
+/-- multi-table statements are read unpruned: JOIN. -/
+theorem C18_join_exact (now : Int) (σ : Valuation) (p : Pred) (a b : Dataset) :
+    runJoinPruned now σ p a b = runJoinFull now σ p a b := rfl
+
+/-- multi-table statements are read unpruned: UNION ALL. -/
+theorem C18_union_exact (now : Int) (σ : Valuation) (p q : Pred) (ds : Dataset) :
+    runUnionPruned now σ p q ds = runUnionFull now σ p q ds := rfl
 
 /-- the same statement issued again inside the cache TTL returns the full result provided that EITHER the
     post-compaction hook `InvalidateCaches` ran since the plan was cached (compaction replaces hour files by a NEW
@@ -379,27 +408,31 @@ theorem C18_partial (now : Int) (σ : Valuation) (p : Pred) (ds : Dataset)
     plan is recomputed) OR the data set has no partition the cached plan's data set lacked (new files inside
     already-known partitions are found by the globs at execution time). -/
 theorem C18_cached_partial (now : Int) (σ : Valuation) (p : Pred) (ds0 ds : Dataset) (invalidated : Bool)
-    (hwp : WellPlaced ds) (hconj : p.safeConj now = true) (hdata : dataOK now p.text ds = true)
+    (hwp : WellPlaced ds) (hdata : dataOK now p ds = true)
     (hnew : invalidated = false → ∀ f ∈ ds, ∃ f0 ∈ ds0, f0.part = f.part) :
     runCachedI now σ p ds0 ds invalidated = runFull now σ p ds := by
   have hsurv : survivesInvalidate = false := by decide
   cases invalidated with
   | true =>
     simp only [runCachedI, hsurv, Bool.not_false, Bool.and_self, if_true]
-    exact C18_partial now σ p ds hwp hconj hdata
+    exact C18_partial now σ p ds hwp hdata
   | false =>
     simp only [runCachedI, Bool.false_and, Bool.false_eq_true, if_false]
-    unfold runCached runFull
-    cases hx : extract now p.text with
-    | none => rfl
-    | some se =>
-      obtain ⟨s, e⟩ := se
-      cases hg : generatePaths s e with
-      | none => simp [planFor, hg, readWith]
-      | some ps =>
-        exact read_exact hwp hg (hnew rfl) (fun row hrow hev => range_sound hconj hdata hrow hev hx)
+    unfold runCached runFull extractStmt
+    cases hconj : p.plainConj with
+    | false => rfl
+    | true =>
+      simp only [if_true]
+      cases hx : extract now p.text with
+      | none => rfl
+      | some sei =>
+        obtain ⟨s, e, incl⟩ := sei
+        cases hg : generatePaths s e incl with
+        | none => simp [planFor, hg, readWith]
+        | some ps =>
+          exact read_exact hwp hg (hnew rfl) (fun row hrow hev => range_sound hconj hdata hrow hev hx)
 
-/-! ### concrete material for the non-vacuity example and the witnesses
+/-! ### concrete material for the non-vacuity examples, the witnesses and the history
     2024-03-15 10:00:00Z = 1710496800 s; hour index 475138; day index 19797. -/
 
 def T0 : Int := 1710496800000000000          -- 2024-03-15 10:00:00Z (an hour boundary)
@@ -417,18 +450,19 @@ def DS0 : Dataset :=
 
 theorem DS0_wellPlaced : WellPlaced DS0 := by decide
 
-/-- non-vacuity of C18_partial: `time >= '…10:00:00' AND time < '…11:30:00' AND v >= 0` on DS0 really prunes
-    (2 of 5 files read) and the hypotheses hold. -/
+
+/-- non-vacuity of C18_partial: `time >= '…10:00:00' AND time <= '…11:00:00' AND v >= 0` on DS0 really prunes
+    (2 of 5 files read, among them hour 11 for the row exactly at 11:00:00) and the hypotheses hold. -/
 example :
-    let p := Pred.and (timeCmp .ge (litAt 10 0)) (.and (timeCmp .lt (litAt 11 30)) (.atom (.base (.cmp .plain .ge (.num 0)))))
-    p.safeConj NOW0 = true ∧ dataOK NOW0 p.text DS0 = true ∧
-    (readSet (extract NOW0 p.text) DS0).length = 2 ∧ (runFull NOW0 σ0 p DS0).length = 3 := by decide
+    let p := Pred.and (timeCmp .ge (litAt 10 0)) (.and (timeCmp .le (litAt 11 0)) (.atom (.base (.cmp .plain .ge (.num 0)))))
+    dataOK NOW0 p DS0 = true ∧ (readSet (extractStmt NOW0 p) DS0).length = 2 ∧
+    (runFull NOW0 σ0 p DS0).length = 3 ∧ runPruned NOW0 σ0 p DS0 = runFull NOW0 σ0 p DS0 := by decide
 
 /-- non-vacuity of C18_cached_partial: a flush adds a file to the already known hour 10 after the plan was cached. -/
 example :
     let p := Pred.and (timeCmp .ge (litAt 10 0)) (timeCmp .lt (litAt 11 30))
     let ds1 : Dataset := DS0 ++ [hourFile 10 [45]]
-    p.safeConj NOW0 = true ∧ dataOK NOW0 p.text ds1 = true ∧ WellPlaced ds1 ∧
+    dataOK NOW0 p ds1 = true ∧ WellPlaced ds1 ∧
     (∀ f ∈ ds1, ∃ f0 ∈ DS0, f0.part = f.part) ∧ (runCachedI NOW0 σ0 p DS0 ds1 false).length = 4 := by decide
 
 /-- hours 10 and 11 (two files each) before, and after a daily compaction that leaves the first ("late raw") file
@@ -440,7 +474,7 @@ def DScompacted : Dataset :=
 /-- non-vacuity of the compaction branch of C18_cached_partial (invalidated = true). -/
 example :
     let p := Pred.and (timeCmp .ge (litAt 10 0)) (timeCmp .lt (litAt 12 0))
-    p.safeConj NOW0 = true ∧ dataOK NOW0 p.text DScompacted = true ∧ WellPlaced DScompacted ∧
+    dataOK NOW0 p DScompacted = true ∧ WellPlaced DScompacted ∧
     (runCachedI NOW0 σ0 p DSraw DScompacted true).length = 4 := by decide
 
 /-- why the hook must clear the cached plan: reusing the pre-compaction plan (hour globs only) after the
@@ -449,95 +483,23 @@ example :
 theorem C18_compaction_needs_invalidate_witness :
     let p := Pred.and (timeCmp .ge (litAt 10 0)) (timeCmp .lt (litAt 12 0))
     runCached NOW0 σ0 p DSraw DScompacted ≠ runFull NOW0 σ0 p DScompacted ∧
-    planBroken (planFor (extract NOW0 p.text) DSraw) [{ part := .day 19797, rows := [] }] = true := by decide
+    planBroken (planFor (extractStmt NOW0 p) DSraw) [{ part := .day 19797, rows := [] }] = true := by decide
 
-/-! ## (3) one counterexample per excluded class (the full statement instantiated, refuted by evaluation) -/
+/-! ## (3) the classes that remain: one counterexample each (the full statement instantiated, refuted by evaluation) -/
 
-/-- OR around a time atom: `time >= '11:00' OR v >= 0` — the regexes do not see the OR; the start-only range
-    [11:00, now+24h) drops every earlier row although `v >= 0` selects them. -/
-theorem C18_or_witness :
-    runPruned NOW0 σ0 (.or (timeCmp .ge (litAt 11 0)) (.atom (.base (.cmp .plain .ge (.num 0))))) DS0 ≠
-    runFull NOW0 σ0 (.or (timeCmp .ge (litAt 11 0)) (.atom (.base (.cmp .plain .ge (.num 0))))) DS0 := by decide
-
-/-- NOT around a time atom: `NOT (time >= '11:00')` selects the rows before 11:00 but prunes to [11:00, now+24h). -/
-theorem C18_not_witness :
-    runPruned NOW0 σ0 (.not (timeCmp .ge (litAt 11 0))) DS0 ≠
-    runFull NOW0 σ0 (.not (timeCmp .ge (litAt 11 0))) DS0 := by decide
-
-/-- `time >= '10:00' AND time <= '11:00:00'`: the row exactly at 11:00:00 lives in hour 11, which
-    `for current.Before(end)` never reaches. -/
-theorem C18_le_end_witness :
-    runPruned NOW0 σ0 (.and (timeCmp .ge (litAt 10 0)) (timeCmp .le (litAt 11 0))) DS0 ≠
-    runFull NOW0 σ0 (.and (timeCmp .ge (litAt 10 0)) (timeCmp .le (litAt 11 0))) DS0 := by decide
-
-/-- the same for the inclusive upper bound of BETWEEN. -/
-theorem C18_between_end_witness :
-    runPruned NOW0 σ0 (.atom (.base (.between .time (litAt 10 0) (litAt 11 0)))) DS0 ≠
-    runFull NOW0 σ0 (.atom (.base (.between .time (litAt 10 0) (litAt 11 0)))) DS0 := by decide
-
-/-- 2020-01-01 02:00:00 -/
-def lit2020 : Rhs := .lit { fmt := 1, y := 2020, mo := 1, d := 1, hh := 2, mi := 0, ss := 0, frac := 0, off := 0 }
-/-- rows at 2019-12-31 23:30 (hour index 438287) and 2020-01-01 00:30 (hour index 438288) -/
-def DS2019 : Dataset :=
-  [{ part := .hour 438287, rows := [mkRow 1577835000000000000] }, { part := .hour 438288, rows := [mkRow 1577838600000000000] }]
-
-/-- end-only predicate, data before the assumed start 2020-01-01: `time < '2020-01-01 02:00:00'`
-    (any later end bound loses the 2019 row as well). -/
-theorem C18_end_only_witness :
-    WellPlaced DS2019 ∧ runPruned NOW0 σ0 (timeCmp .lt lit2020) DS2019 ≠ runFull NOW0 σ0 (timeCmp .lt lit2020) DS2019 := by
-  decide
-
-/-- start-only predicate, data later than now + 24 h (`now` = 2024-03-14 11:00, so the assumed end is
-    2024-03-15 11:00): `time >= '2024-03-15 09:00'` loses the rows of 11:00 and 12:00. -/
+/-- start-only predicate, data later than now + 24 h (`now` = 2024-03-14 10:30, so the assumed end is
+    2024-03-15 10:30): `time >= '2024-03-15 09:00'` loses the rows of 11:00 and 12:00. -/
 theorem C18_start_only_future_witness :
-    runPruned (T0 - 23 * HOUR) σ0 (timeCmp .ge (litAt 9 0)) DS0 ≠
-    runFull (T0 - 23 * HOUR) σ0 (timeCmp .ge (litAt 9 0)) DS0 := by decide
-
-/-- a column whose name merely ends in `time`: `event_time >= '11:00' AND time >= '09:00'` — the first textual
-    match of `time\s*>=` is `event_time`; rows whose event_time is late but whose `time` is early are lost. -/
-theorem C18_suffix_column_witness :
-    let ds : Dataset := [{ part := .hour 475137, rows := [{ time := tAt 9 30, c1 := tAt 11 30, c2 := 0, v := 1 }] }, hourFile 11 [0]]
-    let p := Pred.and (.atom (.base (.cmp .likeTime .ge (litAt 11 0)))) (timeCmp .ge (litAt 9 0))
-    runPruned NOW0 σ0 p ds ≠ runFull NOW0 σ0 p ds := by decide
-
-/-- a time predicate inside a subquery prunes the OUTER table:
-    `v IN (SELECT v FROM other WHERE time >= '11:00')` (the membership holds for every outer row here). -/
-theorem C18_subquery_witness :
-    runPruned NOW0 σ0 (.atom (.sub 0 [.cmp .time .ge (litAt 11 0)])) DS0 ≠
-    runFull NOW0 σ0 (.atom (.sub 0 [.cmp .time .ge (litAt 11 0)])) DS0 := by decide
-
-/-- JOIN: `FROM a JOIN b ON a.v = b.v WHERE a.time >= '11:00'` also prunes `b` to [11:00, …): b's row of 09:00
-    no longer joins. -/
-theorem C18_join_witness :
-    runJoinPruned NOW0 σ0 (timeCmp .ge (litAt 11 0)) DS0 [hourFile 9 [0], hourFile 11 [30]] ≠
-    runJoinFull NOW0 σ0 (timeCmp .ge (litAt 11 0)) DS0 [hourFile 9 [0], hourFile 11 [30]] := by decide
-
-/-- UNION ALL: `… WHERE time >= '10:00' UNION ALL … WHERE time < '11:00'` — the WHERE text runs from the first
-    WHERE to the end of the statement, so BOTH branches are pruned to the window [10:00, 11:00) although each
-    branch is one-sided. -/
-theorem C18_union_witness :
-    runUnionPruned NOW0 σ0 (timeCmp .ge (litAt 10 0)) (timeCmp .lt (litAt 11 0)) DS0 ≠
-    runUnionFull NOW0 σ0 (timeCmp .ge (litAt 10 0)) (timeCmp .lt (litAt 11 0)) DS0 := by decide
+    runPruned (T0 - 24 * HOUR + 30 * 60 * NS) σ0 (timeCmp .ge (litAt 9 0)) DS0 ≠
+    runFull (T0 - 24 * HOUR + 30 * 60 * NS) σ0 (timeCmp .ge (litAt 9 0)) DS0 := by decide
 
 /-- plan cached before hour 11 existed, reused (transform cache TTL) after the flush created it. -/
 theorem C18_cache_stale_witness :
     let p := Pred.and (timeCmp .ge (litAt 10 0)) (timeCmp .lt (litAt 12 0))
     let ds0 : Dataset := [hourFile 9 [30], hourFile 10 [0, 30]]
     let ds1 : Dataset := ds0 ++ [hourFile 11 [0]]
-    p.safeConj NOW0 = true ∧ dataOK NOW0 p.text ds1 = true ∧ cacheValid NOW0 (NOW0 + 30 * NS) = true ∧
+    dataOK NOW0 p ds1 = true ∧ cacheValid NOW0 (NOW0 + 30 * NS) = true ∧
     runCached (NOW0 + 30 * NS) σ0 p ds0 ds1 ≠ runFull (NOW0 + 30 * NS) σ0 p ds1 := by decide
-
-/-- `time >= NOW() - INTERVAL '1 month' AND time < '2024-03-02 14:00'` on 2024-03-31 12:00: Go `AddDate(0,-1,0)`
-    = Mar 2 12:00, DuckDB = Feb 29 12:00; the row of Mar 1 10:30 (hour index 474802) qualifies but its hour is
-    never generated (the row of Mar 2 13:30, hour index 474829, keeps the plan from falling back). -/
-theorem C18_relative_month_witness :
-    let now : Int := 1711886400000000000
-    let ds : Dataset := [{ part := .hour 474802, rows := [mkRow 1709289000000000000] }, { part := .hour 474829, rows := [mkRow 1709386200000000000] }]
-    let hi : Rhs := .lit { fmt := 2, y := 2024, mo := 3, d := 2, hh := 14, mi := 0, ss := 0, frac := 0, off := 0 }
-    let p := Pred.and (timeCmp .ge (.rel false 1 .month false)) (timeCmp .lt hi)
-    WellPlaced ds ∧ relGo now false 1 .month ≠ relDb now false 1 .month ∧
-      runPruned now σ0 p ds ≠ runFull now σ0 p ds := by
-  decide
 
 /-- data before minPartitionDate (Arc's ingest accepts pre-1970 timestamps): `time >= '1969-12-31' AND time < '1970-01-02'`. -/
 theorem C18_pre_epoch_witness :
@@ -551,5 +513,50 @@ theorem C18_pre_epoch_witness :
     saturating `Sub` cannot represent — 1970 … 2370 yields 3.5 million paths instead of the unpruned fallback. -/
 theorem C18_cap_quirk_witness :
     overCap 0 (400 * 365 * DAY) = false ∧ overCap 0 (6 * 365 * DAY) = true := by decide
+
+/-! ## (4) history: the inputs that refuted the property before the repairs now return the full result -/
+
+/-- OR, NOT (642ecb4): no pruning. -/
+example :
+    let por := Pred.or (timeCmp .ge (litAt 11 0)) (.atom (.base (.cmp .plain .ge (.num 0))))
+    let pnot := Pred.not (timeCmp .ge (litAt 11 0))
+    runPruned NOW0 σ0 por DS0 = runFull NOW0 σ0 por DS0 ∧ runPruned NOW0 σ0 pnot DS0 = runFull NOW0 σ0 pnot DS0 ∧
+    extractStmt NOW0 por = none ∧ extractStmt NOW0 pnot = none := by decide
+
+/-- `<=` and BETWEEN upper bound on the hour (5c0e6c5): the hour that starts at the bound is read. -/
+example :
+    let ple := Pred.and (timeCmp .ge (litAt 10 0)) (timeCmp .le (litAt 11 0))
+    let pbt := Pred.atom (.base (.between .time (litAt 10 0) (litAt 11 0)))
+    runPruned NOW0 σ0 ple DS0 = runFull NOW0 σ0 ple DS0 ∧ runPruned NOW0 σ0 pbt DS0 = runFull NOW0 σ0 pbt DS0 ∧
+    (readSet (extractStmt NOW0 ple) DS0).length = 2 := by decide
+
+def lit2020 : Rhs := .lit { fmt := 1, y := 2020, mo := 1, d := 1, hh := 2, mi := 0, ss := 0, frac := 0, off := 0 }
+def DS2019 : Dataset :=
+  [{ part := .hour 438287, rows := [mkRow 1577835000000000000] }, { part := .hour 438288, rows := [mkRow 1577838600000000000] }]
+
+/-- end-only predicate with data before 2020 (a6e9521): the range starts at the floor; here it exceeds the path
+    cap, so the statement is read unpruned. -/
+example :
+    runPruned NOW0 σ0 (timeCmp .lt lit2020) DS2019 = runFull NOW0 σ0 (timeCmp .lt lit2020) DS2019 ∧
+    planFor (extractStmt NOW0 (timeCmp .lt lit2020)) DS2019 = none := by decide
+
+/-- a column whose name merely ends in `time` (18e1f86) is invisible: only `time >= '09:00'` bounds the range. -/
+example :
+    let ds : Dataset := [{ part := .hour 475137, rows := [{ time := tAt 9 30, c1 := tAt 11 30, c2 := 0, v := 1 }] }, hourFile 11 [0]]
+    let p := Pred.and (.atom (.base (.cmp .likeTime .ge (litAt 11 0)))) (timeCmp .ge (litAt 9 0))
+    runPruned NOW0 σ0 p ds = runFull NOW0 σ0 p ds ∧
+    extractStmt NOW0 p = some (tAt 9 0, NOW0 + startOnlyAddNs, true) := by decide
+
+/-- subquery (b2903b5): more than one SELECT ⇒ no pruning. -/
+example :
+    runPruned NOW0 σ0 (.atom (.sub 0 [.cmp .time .ge (litAt 11 0)])) DS0 =
+    runFull NOW0 σ0 (.atom (.sub 0 [.cmp .time .ge (litAt 11 0)])) DS0 := by decide
+
+/-- `time >= NOW() - INTERVAL '1 month'` on 2024-03-31 12:00 (b6673db): the pruner now reads Feb 29 12:00 like DuckDB
+    (plain `AddDate` gave Mar 2 12:00). -/
+example :
+    let now : Int := 1711886400000000000
+    relGo now false 1 .month = relDb now false 1 .month ∧ goAddMonths now (-1) ≠ relDb now false 1 .month ∧
+    relGo now false 1 .month = 1709208000 * NS := by decide
 
 end Arc.C18
